@@ -351,7 +351,8 @@ class _ReadSourceGenerator:
             size += field_type.size
 
         fmt = _optimize_struct_fmt(info)
-        if fmt == "x" or (len(fmt) == 2 and fmt[1] == "x"):
+        if fmt == "x" or (len(fmt) == 2 and fmt[0].isdigit() and fmt[1] == "x"):
+            # Only padding, nothing to unpack (a single value followed by one pad byte, e.g. "Bx", does need it)
             unpack = ""
         else:
             unpack = f'data = _struct(cls.cs.endian, "{fmt}").unpack(buf)\n'
